@@ -44,12 +44,11 @@ device namespaces (that is what `deviceSigAccepts` is a fact about). -/
 theorem C05_device_valid_iff (f : Facts) :
     (handleResponse f).device = .valid ↔
       f.decrypts = true ∧ f.decodes = true ∧ f.hasDocuments = true ∧ f.hasMdlDoc = true ∧
-      f.x5chainPresent = true ∧ f.x5chainParses = true ∧ f.namespacesPresent = true ∧
-      f.coreNamespacePresent = true ∧ DeviceSignatureOk f := by
+      f.x5chainPresent = true ∧ f.x5chainParses = true ∧ DeviceSignatureOk f := by
   rw [← deviceAuthentication_iff]
   unfold handleResponse
   by_cases h1 : (f.decrypts && f.decodes) = true
-  · by_cases h2 : (f.hasDocuments && f.hasMdlDoc && f.x5chainPresent && f.x5chainParses && f.namespacesPresent && f.coreNamespacePresent) = true
+  · by_cases h2 : (f.hasDocuments && f.hasMdlDoc && f.x5chainPresent && f.x5chainParses) = true
     · simp only [h1, h2, Bool.not_true, Bool.false_eq_true, if_false]
       simp only [Bool.and_eq_true] at h1 h2
       cases hd : deviceAuthentication f <;> simp [h1, h2]
@@ -57,8 +56,8 @@ theorem C05_device_valid_iff (f : Facts) :
       simp only [Bool.and_eq_true, not_and, Bool.not_eq_true] at h2
       constructor
       · intro h; cases h
-      · rintro ⟨_, _, a, b, c, d, e, g, _⟩
-        have := h2 (by simp [a, b, c, d, e]); simp_all
+      · rintro ⟨_, _, a, b, c, d, _⟩
+        have := h2 (by simp [a, b, c]); simp_all
   · simp only [h1, Bool.not_false, if_true]
     simp only [Bool.and_eq_true, not_and, Bool.not_eq_true] at h1
     constructor
@@ -72,7 +71,7 @@ theorem C05_not_valid_cases (f : Facts)
          f.devicePayloadAttached = true ∨ f.deviceKey ≠ .p256 true ∨ f.msoDecodes = false) :
     (handleResponse f).device ≠ .valid := by
   intro hv
-  obtain ⟨_, _, _, _, _, _, _, _, _, hm, hk, hs, _, hp, hsp, ha⟩ := (C05_device_valid_iff f).mp hv
+  obtain ⟨_, _, _, _, _, _, _, hm, hk, hs, _, hp, hsp, ha⟩ := (C05_device_valid_iff f).mp hv
   rcases h with h | h | h | h | h | h <;> simp_all
 
 /-- The to-be-signed structure determines the session transcript, the docType and the device
